@@ -41,6 +41,119 @@ PROPS = {
         "partial": [],
         "assumptions": COMMON_ASSUME,
     },
+    "C01": {
+        "claim": "verify = ok implies: keys non-empty, pairwise distinct intrinsic ids (no alias), the block is a layout, every supplied key has a valid signature attributed to its own id over exactly the block's content, and that content is what all later stages enforce; with the four failure clauses as corollaries. Lean theorems for every environment, iteration order and fuel; tied to in_toto_verify by fault-injected end-to-end scenarios with all key schemes.",
+        "level_note": "Trusted: Lean kernel; env.valid abstracts ring + signed-text derivation (C11); 'a post-signing change invalidates the signature' composes with C05 and the unforgeability of the schemes.",
+        "technique": "Lean 4 theorems about an executable model + model/implementation correspondence check (differential run with property oracle)",
+        "rule": "cases = end-to-end scenarios: a valid layout + link directory (real keys of every scheme, real signatures, optional sub-layouts and inspections) materialised in a scratch directory, usually with one injected fault whose effect is known by construction; ops = verify(scenario with constructed signature validity, observed inspection outcomes) run through the real in_toto_verify with a pinned clock; the model is evaluated under two opposite hash-map iteration orders; distinct = distinct scenario; all are non-trivial (they get past argument parsing into stage 1)",
+        "trusted_base": [
+                "ring signature verification = parameter env.valid; clock = env.now (pinned through the verif-hooks clock override); running an inspection = env.run (exit status and recorded link are observed from the real run and handed to the model)",
+                "glob() over the link directory is modelled as 'files named <step>.<8 chars>.link, sorted' for glob-safe step names",
+                "the rule engine inside the pipeline is Model/Rules.lean (see C03)"
+        ],
+        "partial": [],
+        "assumptions": [
+                "the Lean model is hand-written; its tie to the Rust code is the differential run (sampled, plus the stated exhaustive scopes)"
+        ]
+},
+    "C02": {
+        "claim": "verify = ok implies, for every step, max(1,threshold) distinct key ids that are in the step's pubkeys, in the key table, and have a file <step>.<prefix8>.link carrying a signature of that id valid under that key; evidence of unlisted keys and files filed under a prefix none of their signatures carries never count. Lean theorems (induction over the directory listing and the link tables); end-to-end fault injection on the real code.",
+        "level_note": "Trusted: Lean kernel; hypotheses stated in the theorem: distinct step names, key table files keys under their own id (C12), glob-safe step names.",
+        "technique": "Lean 4 theorems about an executable model + model/implementation correspondence check (differential run with property oracle)",
+        "rule": "cases = end-to-end scenarios: a valid layout + link directory (real keys of every scheme, real signatures, optional sub-layouts and inspections) materialised in a scratch directory, usually with one injected fault whose effect is known by construction; ops = verify(scenario with constructed signature validity, observed inspection outcomes) run through the real in_toto_verify with a pinned clock; the model is evaluated under two opposite hash-map iteration orders; distinct = distinct scenario; all are non-trivial (they get past argument parsing into stage 1)",
+        "trusted_base": [
+                "ring signature verification = parameter env.valid; clock = env.now (pinned through the verif-hooks clock override); running an inspection = env.run (exit status and recorded link are observed from the real run and handed to the model)",
+                "glob() over the link directory is modelled as 'files named <step>.<8 chars>.link, sorted' for glob-safe step names",
+                "the rule engine inside the pipeline is Model/Rules.lean (see C03)"
+        ],
+        "partial": [
+                "step names containing glob metacharacters or '/' are outside the model (answer 'unmodelled'); fuzzed under C14"
+        ],
+        "assumptions": [
+                "the Lean model is hand-written; its tie to the Rust code is the differential run (sampled, plus the stated exhaustive scopes)"
+        ]
+},
+    "C06": {
+        "claim": "verify = ok implies the enforced layout's expiry is not earlier than the clock reading, and the same for every sub-layout that counted as evidence (via the C15 theorem, recursively). Lean theorems for all clocks; boundary, far past/future and offset-notation scenarios on the real code with the clock hook.",
+        "level_note": "Trusted: Lean kernel; chrono's RFC 3339 reader (text with any offset -> instant) is library behaviour exercised by the offset scenarios.",
+        "technique": "Lean 4 theorems about an executable model + model/implementation correspondence check (differential run with property oracle)",
+        "rule": "cases = end-to-end scenarios: a valid layout + link directory (real keys of every scheme, real signatures, optional sub-layouts and inspections) materialised in a scratch directory, usually with one injected fault whose effect is known by construction; ops = verify(scenario with constructed signature validity, observed inspection outcomes) run through the real in_toto_verify with a pinned clock; the model is evaluated under two opposite hash-map iteration orders; distinct = distinct scenario; all are non-trivial (they get past argument parsing into stage 1)",
+        "trusted_base": [
+                "ring signature verification = parameter env.valid; clock = env.now (pinned through the verif-hooks clock override); running an inspection = env.run (exit status and recorded link are observed from the real run and handed to the model)",
+                "glob() over the link directory is modelled as 'files named <step>.<8 chars>.link, sorted' for glob-safe step names",
+                "the rule engine inside the pipeline is Model/Rules.lean (see C03)"
+        ],
+        "partial": [
+                "reading RFC 3339 text into an instant is chrono (sampled with offsets -12:00..+14:00)"
+        ],
+        "assumptions": [
+                "the Lean model is hand-written; its tie to the Rust code is the differential run (sampled, plus the stated exhaustive scopes)"
+        ]
+},
+    "C07": {
+        "claim": "verify = ok implies that for every step with threshold >= 2 all verified links (sub-layout summaries included) have identical materials and identical products; a single dissenting pair makes the agreement stage fail. Lean theorems; dissent scenarios (digest, path, extra entry) on the real code.",
+        "level_note": "Trusted: Lean kernel; artifact maps compared as the code compares them (BTreeMap/HashMap equality = canonical list equality).",
+        "technique": "Lean 4 theorems about an executable model + model/implementation correspondence check (differential run with property oracle)",
+        "rule": "cases = end-to-end scenarios: a valid layout + link directory (real keys of every scheme, real signatures, optional sub-layouts and inspections) materialised in a scratch directory, usually with one injected fault whose effect is known by construction; ops = verify(scenario with constructed signature validity, observed inspection outcomes) run through the real in_toto_verify with a pinned clock; the model is evaluated under two opposite hash-map iteration orders; distinct = distinct scenario; all are non-trivial (they get past argument parsing into stage 1)",
+        "trusted_base": [
+                "ring signature verification = parameter env.valid; clock = env.now (pinned through the verif-hooks clock override); running an inspection = env.run (exit status and recorded link are observed from the real run and handed to the model)",
+                "glob() over the link directory is modelled as 'files named <step>.<8 chars>.link, sorted' for glob-safe step names",
+                "the rule engine inside the pipeline is Model/Rules.lean (see C03)"
+        ],
+        "partial": [],
+        "assumptions": [
+                "the Lean model is hand-written; its tie to the Rust code is the differential run (sampled, plus the stated exhaustive scopes)"
+        ]
+},
+    "C08": {
+        "claim": "An inspectionStarted event of a layout occurs in the trace only if stages 1-9 of that layout passed; if any of them fails the result is not ok and the trace has no event of that layout; success requires every inspection to have been started and exited 0, and the rule engine to accept every inspection against the extended link table. Lean theorems over the event trace (induction on delegation depth); sentinel-based scenarios on the real code.",
+        "level_note": "Trusted: Lean kernel; process spawning, CWD handling, what record_artifacts('.') sees and the link file written afterwards are runtime behaviour: observed, not modelled.",
+        "technique": "Lean 4 theorems about an executable model + model/implementation correspondence check (differential run with property oracle)",
+        "rule": "cases = end-to-end scenarios: a valid layout + link directory (real keys of every scheme, real signatures, optional sub-layouts and inspections) materialised in a scratch directory, usually with one injected fault whose effect is known by construction; ops = verify(scenario with constructed signature validity, observed inspection outcomes) run through the real in_toto_verify with a pinned clock; the model is evaluated under two opposite hash-map iteration orders; distinct = distinct scenario; all are non-trivial (they get past argument parsing into stage 1)",
+        "trusted_base": [
+                "ring signature verification = parameter env.valid; clock = env.now (pinned through the verif-hooks clock override); running an inspection = env.run (exit status and recorded link are observed from the real run and handed to the model)",
+                "glob() over the link directory is modelled as 'files named <step>.<8 chars>.link, sorted' for glob-safe step names",
+                "the rule engine inside the pipeline is Model/Rules.lean (see C03)"
+        ],
+        "partial": [
+                "what an inspection command does to the file system and which files its link records are sampled (C18 covers recording)"
+        ],
+        "assumptions": [
+                "the Lean model is hand-written; its tie to the Rust code is the differential run (sampled, plus the stated exhaustive scopes)"
+        ]
+},
+    "C13": {
+        "claim": "Order-independence of the three order-sensitive decisions (signature counting with early exit, agreement check with arbitrary reference, representative link = smallest key id) are Lean theorems for all inputs; the full composition (C13_Full) is stated, evaluated by the driver under two opposite orders for every scenario, and the real run is repeated with fresh hash seeds.",
+        "level_note": "Trusted: Lean kernel; partial: the end-to-end composition theorem is not yet proved; side effects of inspections of sibling sub-layouts are outside the statement.",
+        "technique": "Lean 4 theorems about an executable model + model/implementation correspondence check (differential run with property oracle)",
+        "rule": "cases = end-to-end scenarios: a valid layout + link directory (real keys of every scheme, real signatures, optional sub-layouts and inspections) materialised in a scratch directory, usually with one injected fault whose effect is known by construction; ops = verify(scenario with constructed signature validity, observed inspection outcomes) run through the real in_toto_verify with a pinned clock; the model is evaluated under two opposite hash-map iteration orders; distinct = distinct scenario; all are non-trivial (they get past argument parsing into stage 1)",
+        "trusted_base": [
+                "ring signature verification = parameter env.valid; clock = env.now (pinned through the verif-hooks clock override); running an inspection = env.run (exit status and recorded link are observed from the real run and handed to the model)",
+                "glob() over the link directory is modelled as 'files named <step>.<8 chars>.link, sorted' for glob-safe step names",
+                "the rule engine inside the pipeline is Model/Rules.lean (see C03)"
+        ],
+        "partial": [
+                "C13_Full (composition through all stages) is stated but not yet proved; covered by two-order evaluation and N-fold repetition"
+        ],
+        "assumptions": [
+                "the Lean model is hand-written; its tie to the Rust code is the differential run (sampled, plus the stated exhaustive scopes)"
+        ]
+},
+    "C15": {
+        "claim": "verify = ok implies every sub-layout that counted as evidence is listed under an authorized key of the step, carries that key's valid signature, and has itself passed the complete verify routine with that single key, the step's name and the sub-directory <step>.<prefix8>; plus the summary theorem (requested name; first step's materials; last step's products and command/byproducts; empty link for a step-less layout). Lean theorems; delegation scenarios (depth 1-2) with every inner failure mode on the real code.",
+        "level_note": "Trusted: Lean kernel; recursion depth is fuel in the model (running out is an error, never a success).",
+        "technique": "Lean 4 theorems about an executable model + model/implementation correspondence check (differential run with property oracle)",
+        "rule": "cases = end-to-end scenarios: a valid layout + link directory (real keys of every scheme, real signatures, optional sub-layouts and inspections) materialised in a scratch directory, usually with one injected fault whose effect is known by construction; ops = verify(scenario with constructed signature validity, observed inspection outcomes) run through the real in_toto_verify with a pinned clock; the model is evaluated under two opposite hash-map iteration orders; distinct = distinct scenario; all are non-trivial (they get past argument parsing into stage 1)",
+        "trusted_base": [
+                "ring signature verification = parameter env.valid; clock = env.now (pinned through the verif-hooks clock override); running an inspection = env.run (exit status and recorded link are observed from the real run and handed to the model)",
+                "glob() over the link directory is modelled as 'files named <step>.<8 chars>.link, sorted' for glob-safe step names",
+                "the rule engine inside the pipeline is Model/Rules.lean (see C03)"
+        ],
+        "partial": [],
+        "assumptions": [
+                "the Lean model is hand-written; its tie to the Rust code is the differential run (sampled, plus the stated exhaustive scopes)"
+        ]
+},
     "C03": {
         "claim": "Safety clauses (nothing is consumed by a rule whose pattern or source prefix it does not match; an uninterpretable DISALLOW fails; DISALLOW fails iff a queued artifact matches) are Lean theorems for all rule lists and artifact sets; equality of the code's verdict with the specification's algorithm (Spec/Rules.lean) is checked on the implementation over a systematic single-rule scope and random rule lists; glob and path-clean are specification-level models compared with the libraries.",
         "level_note": "Trusted: Lean kernel; Spec/Rules.lean is my transcription of the in-toto v0.9 rule algorithm; glob 0.3.4 and path-clean 1.0.1 behaviour are library specs validated differentially; model = spec on normalized inputs is sampled until the refinement theorem lands.",
